@@ -164,6 +164,67 @@ def rule_schur_adjust(ck, units):
                           show(bad[0])[:40], f.where(bad[0]), '; '.join('`%s` at %s' % (show(sb)[:40], f.where(sb)) for sb in subs[:2]) or 'no subtraction found'))
 
 
+def rule_update_clones(ck, units, floor=2):
+    """partial_update(K, true) recomputes the pressure weighting for block-valued input in update_transfer(.., false_type) by a copy of
+    the loops of init(.., false_type) (the scalar overloads share first_scalar_pass).  "A partial update with an unchanged matrix leaves
+    the action unchanged" needs the copy to compute what the original computes: every loop of update_transfer that has the shape of a loop
+    of init (same statements and operators, leaves abstracted) is that loop exactly (locals by order of first use, types ignored)."""
+    import json
+    import c02
+    import c06
+    ck.rule('update-clone-agrees', 'cpr / cpr_drs, block-valued input: every loop of update_transfer that has the shape of a loop of init is the same loop (the weights recomputed by a '
+                                   'partial update are the weights the constructor computes)', floor)
+
+    def exact(f, n):
+        return json.dumps(c06.strip_types(c02.norm_tree(f, n, {})), sort_keys=True)
+
+    def shape(t):
+        if isinstance(t, list):
+            return [shape(x) for x in t]
+        if isinstance(t, dict):
+            if t.get('k') in ('ref', 'lit'):
+                return 'X'
+            return {k: shape(v) for k, v in t.items() if k not in ('t', 'ct', 'rt', 'mr', 'cm', 'd', 'v', 'n')}
+        return t
+    done = set()
+    for u in units.values():
+        by = {}
+        for f in u.funcs:
+            if f.cls and f.cls.split('<')[0] in CPR and f.body is not None and f.q.split('::')[-1] in ('init', 'update_transfer') and f.params:
+                tag = u.type(f.decl(f.params[-1]).get('ct'))
+                by.setdefault((f.clsfull or f.cls, tag), {})[f.q.split('::')[-1]] = f
+        for (cls, tag), d in sorted(by.items()):
+            if 'init' not in d or 'update_transfer' not in d:
+                continue
+            ini, upd = d['init'], d['update_transfer']
+            pool = {}
+            for n in ini.nodes.values():
+                if n['k'] in ('for', 'while', 'rfor'):
+                    pool.setdefault(json.dumps(shape(c02.norm_tree(ini, n, {})), sort_keys=True), []).append((n, exact(ini, n)))
+            k = 0
+            for n in sorted((x for x in upd.nodes.values() if x['k'] in ('for', 'while', 'rfor')), key=lambda x: x['i']):
+                cands = pool.get(json.dumps(shape(c02.norm_tree(upd, n, {})), sort_keys=True))
+                if not cands:
+                    continue
+                key = '%s|loop#%d' % (cls.split('<')[0], len([1 for c_, w_ in done if c_ == cls.split('<')[0]]) + 1)
+                if (cls.split('<')[0], upd.where(n)) in done:
+                    continue
+                done.add((cls.split('<')[0], upd.where(n)))
+                k += 1
+                e = exact(upd, n)
+                ok = any(e == ce for _, ce in cands)
+                det = ''
+                if not ok:
+                    # name the first differing statement
+                    other = cands[0][0]
+                    a = [show(x) for x in walk(n) if x['k'] in ('bin', 'call') and x.get('op') in ('=', '+=', '-=', '*=', '/=')]
+                    b = [show(x) for x in walk(other) if x['k'] in ('bin', 'call') and x.get('op') in ('=', '+=', '-=', '*=', '/=')]
+                    diff = [(x, y) for x, y in zip(a, b) if x != y]
+                    det = 'the loop at %s of update_transfer has the shape of the loop at %s of init but is not the same loop%s: after partial_update(K, true) with an unchanged matrix the ' \
+                          'pressure weights differ from those of the constructor' % (upd.where(n), ini.where(other), (' (`%s` vs `%s`)' % diff[0]) if diff else '')
+                ck.ob('update-clone-agrees', key, upd.where(n), ok, det)
+
+
 def rule_schur(ck, units):
     ck.rule('schur-operator', 'matrix-free Schur complement spmv(alpha, x, beta, y): first write of y uses beta on its old content, later writes accumulate, every added term is scaled by +/- alpha', 1)
     done = set()
@@ -306,6 +367,7 @@ def main(tier):
     rule_schur(ck, units)
     rule_schur_lm(ck, units)
     rule_schur_adjust(ck, units)
+    rule_update_clones(ck, units)
     rule_deflation(ck, units)
     # the diagonal blocks that define the CPR pressure weighting are gathered into per-thread scratch that must be rebuilt for every cell (shared with C10)
     import c10
